@@ -93,6 +93,54 @@ var queryTrailers = []string{
 	"what?",
 }
 
+// White space a text may begin with behind a whitespace tag without being part of the tag: its
+// first 8 bytes hold at least one byte that is neither blank nor tab. Mostly whole groups of 8 bytes
+// (white space characters of one to three bytes in UTF-8, never split at the 8 byte boundary).
+func (g *gen) whiteLead() []byte {
+	pure := func(b []byte) bool {
+		for _, c := range b {
+			if c != ' ' && c != '\t' {
+				return false
+			}
+		}
+		return true
+	}
+	runes := []string{" ", " ", "\t", "\n", "\r", "\v", "\f", "\u0085", "\u00a0", "\u2003", "\u3000"}
+	group := func() []byte {
+		switch g.r.Intn(6) {
+		case 0:
+			return []byte("\n       ")
+		case 1:
+			return []byte("\r\n      ")
+		case 2:
+			return []byte("\n\t\t\t\t\t\t\t")
+		case 3:
+			return []byte("\n\u3000\u3000 ")
+		}
+		var b []byte
+		for len(b) < 8 {
+			if s := runes[g.r.Intn(len(runes))]; len(b)+len(s) <= 8 {
+				b = append(b, s...)
+			}
+		}
+		return b
+	}
+	var lead []byte
+	for len(lead) == 0 || pure(lead[:8]) {
+		lead = group()
+	}
+	switch g.r.Intn(6) {
+	case 0: // a second group, of any kind
+		lead = append(lead, group()...)
+	case 1: // not a whole group
+		lead = lead[:1+g.r.Intn(7)]
+		if pure(lead) {
+			lead[0] = '\n'
+		}
+	}
+	return lead
+}
+
 func (g *gen) policyScenario(w *world, pa, pb int, form int) {
 	w.parties = map[string]*party{}
 	w.dead = false
@@ -247,6 +295,24 @@ func (g *gen) policyScenario(w *world, pa, pb int, form int) {
 				head, tail = text, nil
 			}
 		}
+		// the text behind the tag begins with white space that is NOT a further version indication
+		// (those are groups of 8 blanks and tabs only): a line break and the indentation of the next
+		// line, CR LF, form feeds, no-break and ideographic spaces. It belongs to the text - also when
+		// bytes that look like a version indication follow it.
+		if g.r.Intn(5) < 2 {
+			cut := 1 + g.r.Intn(len(text))
+			for cut > 1 && (text[cut-1] == ' ' || text[cut-1] == '\t') {
+				cut--
+			}
+			lead := g.whiteLead()
+			if len(lead)%8 == 0 && g.r.Intn(2) == 0 {
+				lead = append(lead, tags[2+g.r.Intn(2)]...)
+			}
+			head = text[:cut]
+			tail = append(lead, text[cut:]...)
+			text = append(append([]byte{}, head...), tail...)
+			g.dist["policy_white_lead"]++
+		}
 		m := append(append([]byte{}, head...), []byte(hdr)...)
 		offered := 0
 		for _, v := range order {
@@ -260,7 +326,7 @@ func (g *gen) policyScenario(w *world, pa, pb int, form int) {
 		checkWire(b, pb, ts)
 		versionAllowed(b, pb, fmt.Sprintf("tagged plaintext with tags %v", order))
 		if pb&6 != 0 && !bytes.Equal(plain, text) {
-			olog.viol("C16", "plaintext-altered", fmt.Sprintf("policy %d: text %q followed by the tag header and version tags %v was delivered as %q", pb, text, order, plain))
+			olog.viol("C16", "plaintext-altered", fmt.Sprintf("policy %d: message %q (text %q with the tag header and version tags %v put in front of its last %d bytes) was delivered as %q", pb, m, text, order, len(tail), plain))
 		}
 		want := 0
 		if pb&32 != 0 {
@@ -278,7 +344,7 @@ func (g *gen) policyScenario(w *world, pa, pb int, form int) {
 			}
 		}
 		if got != want {
-			olog.viol("C16", "wrong-version-negotiated", fmt.Sprintf("policy %d, tagged plaintext offering tags %v: answered with a version %d message, expected version %d (0 = none)", pb, order, got, want))
+			olog.viol("C16", "wrong-version-negotiated", fmt.Sprintf("policy %d, tagged plaintext %q offering tags %v (the %d bytes behind them are text): answered with a version %d message, expected version %d (0 = none)", pb, m, order, len(tail), got, want))
 		}
 		if specOrder && pb&6 != 0 {
 			// a message an independent implementation of the protocol document writes: read correctly
